@@ -177,6 +177,14 @@ class StmtMixin:
             return [Outcome("normal", st)]
         if isinstance(s.value, ast.Call) and isinstance(s.value.func, ast.Name) and s.value.func.id == "print":
             return [Outcome("normal", st)]  # dropped by extraction (DESIGN 2.1)
+        if isinstance(s.value, ast.Call) and isinstance(s.value.func, ast.Name) and s.value.func.id == "__cut__":
+            # sidecar proof cut: prove the named formula here, then use it
+            name = s.value.args[0].value
+            ctx = S.Ctx(st.env, old=self.old_ctx, loops=st.loops)
+            for label, f in self.con.cuts[name](ctx):
+                self.emit(Obligation("%s/%s/cut[%s:%s]" % (self.con.qualname, st.pathname(), name, label), st.pc, f, kind="cut"))
+                st.assume(f)
+            return [Outcome("normal", st)]
         return self.root_eval(s.value, st, s, lambda v, st2: [Outcome("normal", st2)])
 
     def root_eval(self, valnode, st, s, cont, hint=None):
@@ -339,6 +347,15 @@ class StmtMixin:
                 st.env.pop(t.id, None)
             elif isinstance(t, ast.Attribute):
                 pass  # `del self.x` immediately followed by re-assignment in the subset
+            elif isinstance(t, ast.Subscript):
+                hz = self.hz
+                self.hz = []
+                base = self.eval(t.value, st)
+                self.hz = hz
+                h = self.delitem_handlers.get(base.ty.key)
+                if h is None:
+                    raise Unsupported("del on %s" % base.ty, s)
+                h(self, t, base, st)
             else:
                 raise Unsupported("del target", s)
         return [Outcome("normal", st)]
@@ -545,7 +562,13 @@ class StmtMixin:
                 raise Unsupported("assignment target in loop", t)
             paths.add(p)
 
-        for n in ast.walk(ast.Module(body=body, type_ignores=[])):
+        nodes = list(ast.walk(ast.Module(body=body, type_ignores=[])))
+        # ghost statements hooked after real statements of the body mutate ghost variables
+        for n in list(nodes):
+            g = self.ghost_hooks.get(id(n))
+            if g:
+                nodes += list(ast.walk(ast.Module(body=g, type_ignores=[])))
+        for n in nodes:
             if isinstance(n, ast.Assign):
                 for t in n.targets:
                     add_target(t)
